@@ -22,6 +22,10 @@ Fixpoint s2l (s : string) : str :=
   | String a r => Z.of_N (N_of_ascii a) :: s2l r
   end.
 
+(* a string literal as its code points, computed when the definition is read, so
+   that no Coq [string] remains in the models (and in the extracted code) *)
+Notation L x := (ltac:(let v := eval vm_compute in (s2l x) in exact v)) (only parsing).
+
 (* ------------------------------------------------------------------ *)
 (* mnemonics (qvm/instrs.py names) of the hand-written instruction type *)
 
@@ -30,43 +34,43 @@ Definition tchar (ty : Z) : str :=
   else if ty =? 4 then [35] else if ty =? 5 then [36] else if ty =? 7 then [64] else [63].
 
 Definition smallc (c : Z) : str :=
-  if c =? -2 then s2l "m2" else if c =? -1 then s2l "m1" else if c =? 0 then s2l "0"
-  else if c =? 1 then s2l "1" else if c =? 2 then s2l "2" else s2l "?".
+  if c =? -2 then L "m2" else if c =? -1 then L "m1" else if c =? 0 then L "0"
+  else if c =? 1 then L "1" else if c =? 2 then L "2" else L "?".
 
-Definition scope_ch (local_ : bool) : str := if local_ then s2l "l" else s2l "g".
+Definition scope_ch (local_ : bool) : str := if local_ then L "l" else L "g".
 
 Definition instr_name (i : instr) : str :=
   match i with
-  | IAbs => s2l "abs" | IAdd => s2l "add" | IAllocarr _ _ => s2l "allocarr" | IAnd => s2l "and"
-  | IArridx _ => s2l "arridx" | IAsc => s2l "asc" | ICall _ => s2l "call" | IChr => s2l "chr"
-  | ICint => s2l "cint" | IClng => s2l "clng" | ICmp => s2l "cmp"
-  | IConv s d => s2l "conv" ++ tchar s ++ tchar d
-  | IDeref ty => s2l "deref" ++ tchar ty
-  | IDiv => s2l "div" | IDupl => s2l "dupl" | IEq => s2l "eq" | IEqv => s2l "eqv"
-  | IErrget => s2l "errget" | IErrhand _ => s2l "errhand" | IErrline => s2l "errline"
-  | IErrraise => s2l "errraise" | IErrres => s2l "errres" | IErrresn => s2l "errresn"
-  | IExp => s2l "exp" | IFrame _ _ => s2l "frame" | IGe => s2l "ge" | IGt => s2l "gt"
-  | IHalt => s2l "halt" | IIdiv => s2l "idiv" | IIjmp => s2l "ijmp"
-  | IInitarrg _ _ _ => s2l "initarrg" | IInitarrl _ _ _ => s2l "initarrl"
-  | IInt => s2l "int" | IImp => s2l "imp" | IIo _ _ => s2l "io" | IJmp _ => s2l "jmp"
-  | IJz _ => s2l "jz" | ILbound => s2l "lbound" | ILcase => s2l "lcase" | ILe => s2l "le"
-  | ILt => s2l "lt" | ILtrim => s2l "ltrim" | IMod => s2l "mod" | IMul => s2l "mul"
-  | INe => s2l "ne" | INeg => s2l "neg" | INop => s2l "nop" | INot => s2l "not"
-  | INtos => s2l "ntos" | IOr => s2l "or" | IPop => s2l "pop"
-  | IPushI _ => s2l "push%" | IPushL _ => s2l "push&" | IPushS _ => s2l "push!"
-  | IPushD _ => s2l "push#" | IPushStr _ => s2l "push$"
-  | IPushC ty c => s2l "push" ++ smallc c ++ tchar ty
-  | IPushrefg _ => s2l "pushrefg" | IPushrefl _ => s2l "pushrefl"
-  | IRead l ty _ => s2l "read" ++ scope_ch l ++ tchar ty
-  | IReadidx l ty _ _ => s2l "readidx" ++ scope_ch l ++ tchar ty
-  | IRefidx => s2l "refidx" | IRet => s2l "ret" | IRetv => s2l "retv" | IRtrim => s2l "rtrim"
-  | ISdbl => s2l "sdbl" | ISign => s2l "sign" | ISpace => s2l "space" | ISub => s2l "sub"
-  | IStore l _ => s2l "store" ++ scope_ch l
-  | IStoreidx l _ _ => s2l "storeidx" ++ scope_ch l
-  | IStoreref => s2l "storeref" | IStrfind => s2l "strfind" | IStrleft => s2l "strleft"
-  | IStrlen => s2l "strlen" | IStrmid => s2l "strmid" | IStrrep => s2l "strrep"
-  | IStrright => s2l "strright" | ISwap => s2l "swap" | ISwapprev => s2l "swapprev"
-  | IUbound => s2l "ubound" | IUcase => s2l "ucase" | IXor => s2l "xor"
+  | IAbs => L "abs" | IAdd => L "add" | IAllocarr _ _ => L "allocarr" | IAnd => L "and"
+  | IArridx _ => L "arridx" | IAsc => L "asc" | ICall _ => L "call" | IChr => L "chr"
+  | ICint => L "cint" | IClng => L "clng" | ICmp => L "cmp"
+  | IConv s d => L "conv" ++ tchar s ++ tchar d
+  | IDeref ty => L "deref" ++ tchar ty
+  | IDiv => L "div" | IDupl => L "dupl" | IEq => L "eq" | IEqv => L "eqv"
+  | IErrget => L "errget" | IErrhand _ => L "errhand" | IErrline => L "errline"
+  | IErrraise => L "errraise" | IErrres => L "errres" | IErrresn => L "errresn"
+  | IExp => L "exp" | IFrame _ _ => L "frame" | IGe => L "ge" | IGt => L "gt"
+  | IHalt => L "halt" | IIdiv => L "idiv" | IIjmp => L "ijmp"
+  | IInitarrg _ _ _ => L "initarrg" | IInitarrl _ _ _ => L "initarrl"
+  | IInt => L "int" | IImp => L "imp" | IIo _ _ => L "io" | IJmp _ => L "jmp"
+  | IJz _ => L "jz" | ILbound => L "lbound" | ILcase => L "lcase" | ILe => L "le"
+  | ILt => L "lt" | ILtrim => L "ltrim" | IMod => L "mod" | IMul => L "mul"
+  | INe => L "ne" | INeg => L "neg" | INop => L "nop" | INot => L "not"
+  | INtos => L "ntos" | IOr => L "or" | IPop => L "pop"
+  | IPushI _ => L "push%" | IPushL _ => L "push&" | IPushS _ => L "push!"
+  | IPushD _ => L "push#" | IPushStr _ => L "push$"
+  | IPushC ty c => L "push" ++ smallc c ++ tchar ty
+  | IPushrefg _ => L "pushrefg" | IPushrefl _ => L "pushrefl"
+  | IRead l ty _ => L "read" ++ scope_ch l ++ tchar ty
+  | IReadidx l ty _ _ => L "readidx" ++ scope_ch l ++ tchar ty
+  | IRefidx => L "refidx" | IRet => L "ret" | IRetv => L "retv" | IRtrim => L "rtrim"
+  | ISdbl => L "sdbl" | ISign => L "sign" | ISpace => L "space" | ISub => L "sub"
+  | IStore l _ => L "store" ++ scope_ch l
+  | IStoreidx l _ _ => L "storeidx" ++ scope_ch l
+  | IStoreref => L "storeref" | IStrfind => L "strfind" | IStrleft => L "strleft"
+  | IStrlen => L "strlen" | IStrmid => L "strmid" | IStrrep => L "strrep"
+  | IStrright => L "strright" | ISwap => L "swap" | ISwapprev => L "swapprev"
+  | IUbound => L "ubound" | IUcase => L "ucase" | IXor => L "xor"
   end.
 
 (* ------------------------------------------------------------------ *)
@@ -356,7 +360,8 @@ Definition pbind {A B} (x : pres A) (f : A -> pres B) : pres B :=
    bytes, the remaining bytes and whether idx went past the end *)
 Definition take (size : Z) (bs : list Z) : list Z * list Z * bool :=
   let n := Z.to_nat size in
-  (firstn n bs, skipn n bs, len bs <? size).
+  let v := firstn n bs in
+  (v, skipn n bs, len v <? size).
 
 (* parse_literals_section: while idx < len(section) *)
 Fixpoint parse_literals (fuel : nat) (bs : list Z) : pres (list str) :=
